@@ -180,6 +180,10 @@ def wrapper(ex, cname):
         body.append('  auto r = %s;' % call)
         body += post
         body.append('  opt_sv_t rr; rr.has = r.has_value(); rr.v.p = r ? r->data() : 0; rr.v.n = r ? r->size() : 0; return rr;')
+    elif rct.klass == 'comp' and not rct.ref:
+        body.append('  ada::url_components r = %s;' % call)
+        body += post
+        body.append('  struct m_url_components rr; std::memcpy((void *)&rr, (const void *)&r, sizeof rr); return rr;')
     elif rct.klass is None and not rct.arr and not rct.ref:
         body.append('  auto r = %s;' % call)
         body += post
@@ -259,7 +263,7 @@ def c_program(o, info, w, protos):
         objs.setdefault(root, []).append('%s = %s;' % (k, v))
     for root, lines in objs.items():
         parts.append('#define W_INIT_%s do { %s } while (0)' % (root, ' '.join(lines)))
-    for m in re.finditer(r'ND_FILL\w*\(\s*(\w+)', ht0):
+    for m in re.finditer(r'ND_(?:FILL\w*|URL|AGG)\(\s*(\w+)', ht0):
         if m.group(1) not in objs:
             parts.append('#define W_INIT_%s ((void)0)' % m.group(1))
     parts.append('#define NATIVE_REPLAY 1')
